@@ -220,6 +220,142 @@ def h_orientation(ex, variant, n_row, n_ref, dim):
     return None
 
 
+# ------------------------------------------------------------------ size-symbolic index lemma (one arbitrary iteration)
+_NUMBA_RANGES = {"uint8": (0, 2 ** 8 - 1), "uint16": (0, 2 ** 16 - 1), "uint32": (0, 2 ** 32 - 1), "uint64": (0, 2 ** 64 - 1),
+                 "int8": (-2 ** 7, 2 ** 7 - 1), "int16": (-2 ** 15, 2 ** 15 - 1), "int32": (-2 ** 31, 2 ** 31 - 1), "int64": (-2 ** 63, 2 ** 63 - 1),
+                 "intp": (-2 ** 63, 2 ** 63 - 1)}
+
+
+def _declared_locals(fdef):
+    """integer machine types declared through @numba.njit(locals={...}) on the function definition"""
+    out = {}
+    for d in fdef.decorator_list:
+        if isinstance(d, ast.Call):
+            for kw in d.keywords:
+                if kw.arg == "locals":
+                    v = kw.value
+                    items = []
+                    if isinstance(v, ast.Dict):
+                        items = [(k.value, t) for k, t in zip(v.keys, v.values) if isinstance(k, ast.Constant)]
+                    elif isinstance(v, ast.Call):
+                        items = [(k.arg, k.value) for k in v.keywords]
+                    for name, t in items:
+                        tn = t.attr if isinstance(t, ast.Attribute) else (t.id if isinstance(t, ast.Name) else None)
+                        if tn in _NUMBA_RANGES:
+                            out[name] = (tn,) + _NUMBA_RANGES[tn]
+    return out
+
+
+class _OneIteration(ast.NodeTransformer):
+    """`for v in range(e): body`  ->  `v = _havoc(e); body`   (one arbitrary iteration with a symbolic trip count);
+    assignments to variables with a declared machine type go through _typed (range assertion)"""
+
+    def __init__(self, declared):
+        self.declared = declared
+
+    def _wrap(self, name, value):
+        if name in self.declared:
+            return ast.Call(func=ast.Name(id="_typed", ctx=ast.Load()), args=[ast.Constant(name), value], keywords=[])
+        return value
+
+    def visit_For(self, node):
+        self.generic_visit(node)
+        it = node.iter
+        if not (isinstance(it, ast.Call) and getattr(it.func, "id", None) == "range" and isinstance(node.target, ast.Name)):
+            raise core.Unmodelled("loop that is not `for v in range(...)` in the one-iteration lemma")
+        hav = ast.Call(func=ast.Name(id="_havoc", ctx=ast.Load()), args=[ast.Constant(node.target.id)] + list(it.args), keywords=[])
+        first = ast.Assign(targets=[ast.Name(id=node.target.id, ctx=ast.Store())], value=self._wrap(node.target.id, hav))
+        return [first] + node.body
+
+    def visit_Assign(self, node):
+        self.generic_visit(node)
+        if len(node.targets) == 1 and isinstance(node.targets[0], ast.Name):
+            node.value = self._wrap(node.targets[0].id, node.value)
+        return node
+
+
+class _IndexRecorder:
+    """array of symbolic size: every subscript is asserted to be in range and recorded; reads return fresh reals"""
+
+    def __init__(self, name, dims):
+        self.name, self.dims, self.reads, self.writes = name, dims, [], []
+
+    def _idx(self, k):
+        k = k if isinstance(k, tuple) else (k,)
+        for x, d in zip(k, self.dims):
+            check("%s: subscript within the array for every size" % self.name, sand(x >= 0, x < d))
+        return k
+
+    def __getitem__(self, k):
+        k = self._idx(k)
+        v = fresh_real("%s_cell" % self.name)
+        self.reads.append((k, v))
+        return v
+
+    def __setitem__(self, k, v):
+        self.writes.append((self._idx(k), v))
+
+
+def h_arc_lemma(ex):
+    """get_transport_plan for EVERY problem size: sizes n, m are symbolic (bounded only by pynndescent's uint16 node
+    ids), the two loops are replaced by one arbitrary iteration each, and the assertions are (1) every local with a
+    machine type declared through numba's locals= holds the value assigned to it, (2) every subscript is inside its
+    array, (3) cell (i, j) reads the flow of arc n*m - 1 - (i*m + j), which allocate_graph_structures (non-mixing
+    layout) connects from the supply node of row i to the demand node of column j"""
+    import collections
+    import os
+    ot, lot = LOT()
+    path = os.path.join(loader.REPO, "vectorizers", "linear_optimal_transport.py")
+    tree = ast.parse(open(path).read())
+    fdef = [n for n in tree.body if isinstance(n, ast.FunctionDef) and n.name == "get_transport_plan"][0]
+    declared = _declared_locals(fdef)
+    register("declared_locals", {k: v[0] for k, v in declared.items()})
+    fdef.decorator_list = []
+    fdef = ast.fix_missing_locations(_OneIteration(declared).visit(fdef))
+    n = fresh_int("n", 1, 65534)
+    m = fresh_int("m", 1, 65534)
+    assume(n + m <= 65535)          # pynndescent stores node ids as uint16: larger problems are outside its documented reach
+    register("n", n); register("m", m)
+    hav = {}
+
+    def _havoc(name, *a):
+        lo, hi = (0, a[0]) if len(a) == 1 else (a[0], a[1])
+        v = fresh_int("iter_" + name)
+        assume(sand(v >= lo, v < hi))
+        hav[name] = v
+        return v
+
+    def _typed(name, value):
+        tn, lo, hi = declared[name]
+        check("local '%s' declared %s holds every value assigned to it" % (name, tn), sand(value >= lo, value <= hi))
+        return value
+    Graph = collections.namedtuple("Graph", "n_nodes n_arcs n m use_arc_mixing num_total_big_subsequence_numbers subsequence_length num_big_subsequences mixing_coeff")
+    graph = Graph(n + m, n * m, n, m, False, 0, 0, 0, 0)
+    flow = _IndexRecorder("flow", (n * m + 2 * (n + m),))
+    result = _IndexRecorder("result", (n, m))
+
+    class _NP:
+        float64 = np.float64
+
+        @staticmethod
+        def zeros(shape, dtype=None):
+            return result
+    ns = {"np": _NP, "arc_id": ot.arc_id, "_havoc": _havoc, "_typed": _typed, "range": range}
+    exec(compile(ast.Module(body=[fdef], type_ignores=[]), path, "exec"), ns)
+    call(ns["get_transport_plan"], flow, graph)
+    check("exactly one cell is written per (i, j) iteration, from exactly one flow entry", len(result.writes) == 1 and len(flow.reads) == 1)
+    if len(result.writes) != 1 or len(flow.reads) != 1:
+        return None
+    (ci, cj), val = result.writes[0]
+    (p,), fv = flow.reads[0]
+    i, j = hav.get("i"), hav.get("j")
+    check("the written cell is (i, j) and holds the flow that was read", sand(ci == i, cj == j) if (i is not None and j is not None) else False)
+    a = n * m - 1 - p                      # allocate_graph_structures: position p holds arc a = n_arcs - 1 - p
+    check("cell (i, j) reads the arc whose source is the supply node of row i", a // m == i)
+    check("cell (i, j) reads the arc whose target is the demand node of column j", a % m == j)
+    return None
+
+
 def cases(tier):
     cs = []
     shapes = [(1, 1), (1, 3), (3, 1), (2, 2), (2, 3), (3, 2)] if tier == "quick" else [(n, m) for n in range(1, 5) for m in range(1, 5)]
@@ -228,6 +364,10 @@ def cases(tier):
     for n, m in shapes:
         cs.append(Case("transport_plan[%dx%d]" % (n, m), h_plan, dict(n=n, m=m), replay="C07:replay_plan", functions=FUNCS, stubs=STUBS,
                        assumptions=A, bounds={"source points": n, "target points": m, "masses": "symbolic reals >= 0 summing to 1", "cost": "symbolic reals >= 0"}))
+    cs.append(Case("arc_index_lemma[all sizes]", h_arc_lemma, {}, replay="C07:replay_arc_lemma", functions=FUNCS[:2] + FUNCS[-1:], fast_ms=2000,
+                   assumptions=["n + m <= 65535 (pynndescent's uint16 node ids)", "non-mixing arc layout of allocate_graph_structures(n, m, False): position p holds arc n*m - 1 - p (validated on concrete sizes by the transport_plan cases, which execute the real allocation loop)",
+                                "loops replaced by one arbitrary iteration (loop bodies do not carry state between iterations)"],
+                   bounds={"n, m": "symbolic, 1 .. 65534 with n + m <= 65535", "iteration": "arbitrary (i, j)"}))
     grid = [(r, c) for r in range(0, 5) for c in range(0, 5) if (r + c) <= (6 if tier == "quick" else 8)]
     for r, c in grid:
         if r == 0 and c == 0:
